@@ -83,7 +83,11 @@ func (watcher *RequestWatcher) StopAll() {
 	defer watcher.requestsMapMutex.RUnlock()
 
 	for _, request := range watcher.requests {
-		request.SetProcessedTimeout()
+		// a request that already got its verdict may still be on the watch list
+		// (it is removed asynchronously) and must not be signalled a second time
+		if request.StartProcessing() {
+			request.SetProcessedTimeout()
+		}
 	}
 }
 
